@@ -96,6 +96,11 @@ pub unsafe extern "C" fn getrandom(buf: *mut c_void, len: size_t, flags: c_uint)
     if !RAND_ON.load(SeqCst) {
         return unsafe { libc::syscall(libc::SYS_getrandom, buf, len, flags) as ssize_t };
     }
+    if len == 0 {
+        // Availability probe (the getrandom crate does one per process): must not advance the
+        // per-thread counter, or the first run of a process would differ from all later ones.
+        return 0;
+    }
     RANDOM_READS.fetch_add(1, SeqCst);
     let n = CALLS.try_with(|c| {
         let v = c.get();
